@@ -1,9 +1,15 @@
 (* C15: _overlap_split.  The number of rows of the output buffer is a float computation:
-   N = ceil(sum(end - start) / (interval_size * (1 - overlap))), and the kernel writes one row per
-   window.  Safety therefore needs a real-arithmetic argument (on the idealised floats = exact
-   rationals): n windows written so far cover n * step <= (time scanned so far), and a new window is
-   only written when a whole interval_size still fits before the end of the current epoch. *)
-From Coq Require Import ZArith QArith Qround Lqa String List Bool Lia.
+   N = ceil(sum(end - start) / (interval_size * (1 - overlap))), the buffer has N + 1 rows and the
+   kernel writes one row per window.  Since the repair of the library the inner loop is
+   `while t + interval_size < end[k] and n <= N`, so that a row is written only under the guard
+   n <= N, i.e. inside the N + 1 rows of the buffer (and never when N + 1 <= 0: then the buffer is
+   empty and 0 <= n <= N is impossible).  Safety is therefore an integer argument on the guard alone:
+   no property of the float value N is used (before the repair the bound needed the exact-rational
+   argument n * step <= time scanned so far, under 0 < interval_size and 0 <= overlap < 1 and
+   start <= end).  It holds under [Pre__overlap_split_any] (arrays of equal length, any
+   interval_size, any overlap); [Pre__overlap_split], the contract of the callers, is kept unchanged
+   and implies it. *)
+From Coq Require Import ZArith QArith String List Bool Lia.
 From Verif Require Import Jit.Lang Jit.Interp Jit.Safety Jit.Tactics Jit.ArrayFacts Jit.FloatFacts
   Gen.Kernels.
 Import ListNotations.
@@ -11,146 +17,21 @@ Open Scope Z_scope.
 Local Open Scope string_scope.
 
 Definition fq (q : Q) : sval := VFlt (Some q).
-Definition qnth (l : list Q) (k : Z) : Q := nth (Z.to_nat k) l 0%Q.
-Fixpoint qsum (l : list Q) : Q := match l with [] => 0%Q | x :: r => (x + qsum r)%Q end.
-Definition lens (ss es : list Q) : list Q := map (fun p => (snd p - fst p)%Q) (combine ss es).
-Definition qpsum (ss es : list Q) (k : Z) : Q := qsum (firstn (Z.to_nat k) (lens ss es)).
-
 Definition fqs (l : list Q) : list sval := map fq l.
 
 Lemma zlen_fqs : forall l, zlen (fqs l) = zlen l.
 Proof. intros; unfold fqs; apply zlen_map. Qed.
 
-Lemma nth_fqs : forall l k, 0 <= k < zlen l -> to_flt (nthZ (fqs l) k) = Some (qnth l k).
+(* the guard n <= N puts row n inside a buffer of max 0 (N + 1) rows, whatever the value N = int(x) *)
+Lemma guard_row : forall (n : Z) (x : sval),
+  eval_cmp Le (VInt n) (eval_unop ToInt x) = true ->
+  n < Z.max 0 (to_int (eval_binop Add (eval_unop ToInt x) (VInt 1))).
 Proof.
-  intros l k H. unfold nthZ, fqs, qnth.
-  rewrite (nth_indep _ dflt (fq 0%Q)) by (rewrite map_length; unfold zlen in H; lia).
-  rewrite map_nth. reflexivity.
+  intros n x H. change (eval_unop ToInt x) with (VInt (to_int x)) in *.
+  change (eval_cmp Le (VInt n) (VInt (to_int x))) with (Z.leb n (to_int x)) in H.
+  change (to_int (eval_binop Add (VInt (to_int x)) (VInt 1))) with (to_int x + 1).
+  apply Z.leb_le in H. generalize dependent (to_int x). intros; lia.
 Qed.
-
-(* the model's sum of end - start is an exact rational equal to the sum of the lengths *)
-Lemma sum_flt_acc : forall (es ss : list Q) (a : Q), length ss = length es ->
-  exists q, fold_left (fun acc v => fadd acc (to_flt v))
-                      (map2 (fun x y : sval => VFlt (fsub (to_flt x) (to_flt y))) (fqs es) (fqs ss))
-                      (Some a) = Some q
-            /\ (q == a + qsum (lens ss es))%Q.
-Proof.
-  induction es as [|e er IH]; intros ss a H; destruct ss as [|s sr]; simpl in H; try discriminate.
-  - exists a. split; [reflexivity|]. unfold lens. simpl. ring.
-  - injection H as H. unfold fqs, map2. simpl map. fold (@map2 sval sval sval).
-    cbn [fold_left to_flt fq fsub fadd f2 qsome].
-    specialize (IH sr (Qred (a + Qred (e - s))) H). destruct IH as [q [E1 E2]].
-    exists q. split.
-    + exact E1.
-    + rewrite E2. rewrite Qred_correct. rewrite Qred_correct.
-      unfold lens. cbn [combine map qsum fst snd]. ring.
-Qed.
-
-Lemma sum_flt_lens : forall es ss, length ss = length es ->
-  exists q, sum_flt (map2 (fun x y : sval => VFlt (fsub (to_flt x) (to_flt y))) (fqs es) (fqs ss)) = Some q
-            /\ (q == qsum (lens ss es))%Q.
-Proof.
-  intros es ss H. unfold sum_flt. destruct (sum_flt_acc es ss 0 H) as [q [E1 E2]].
-  exists q. split; [exact E1|]. rewrite E2. ring.
-Qed.
-
-(* prefix sums of the lengths *)
-Lemma lens_length : forall ss es, length ss = length es -> length (lens ss es) = length ss.
-Proof. intros. unfold lens. rewrite map_length, combine_length. lia. Qed.
-
-Lemma lens_nth : forall ss es k, length ss = length es -> (k < length ss)%nat ->
-  nth k (lens ss es) 0%Q = (nth k es 0 - nth k ss 0)%Q.
-Proof.
-  intros ss es k H Hk. unfold lens.
-  set (g := fun p : Q * Q => (snd p - fst p)%Q).
-  rewrite (nth_indep _ 0%Q (g (0%Q, 0%Q))) by (rewrite map_length, combine_length; lia).
-  rewrite map_nth, combine_nth by assumption. reflexivity.
-Qed.
-
-Lemma qsum_app : forall a b, (qsum (a ++ b)%list == qsum a + qsum b)%Q.
-Proof. induction a as [|x r IH]; intros b; simpl; [ring|]. rewrite IH. ring. Qed.
-
-Lemma qpsum_0 : forall ss es, (qpsum ss es 0 == 0)%Q.
-Proof. intros. unfold qpsum. simpl. reflexivity. Qed.
-
-Lemma firstn_snoc_q : forall (l : list Q) n, (n < length l)%nat ->
-  firstn (S n) l = (firstn n l ++ [nth n l 0%Q])%list.
-Proof.
-  induction l as [|x r IH]; intros n H; simpl in H; [lia|].
-  destruct n; [reflexivity|]. simpl. f_equal. apply IH. lia.
-Qed.
-
-Lemma qpsum_succ : forall ss es k, length ss = length es -> 0 <= k < zlen ss ->
-  (qpsum ss es (k + 1) == qpsum ss es k + (qnth es k - qnth ss k))%Q.
-Proof.
-  intros ss es k H Hk. unfold qpsum, qnth.
-  replace (Z.to_nat (k + 1)) with (S (Z.to_nat k)) by lia.
-  rewrite firstn_snoc_q by (rewrite lens_length by assumption; unfold zlen in Hk; lia).
-  rewrite qsum_app. simpl. rewrite lens_nth by (try assumption; unfold zlen in Hk; lia). ring.
-Qed.
-
-Lemma qsum_nonneg : forall l, Forall (fun x => (0 <= x)%Q) l -> (0 <= qsum l)%Q.
-Proof. induction 1; simpl; [lra|lra]. Qed.
-
-Lemma lens_nonneg : forall ss es, Forall2 Qle ss es -> Forall (fun x => (0 <= x)%Q) (lens ss es).
-Proof.
-  induction 1; unfold lens; simpl; constructor; [simpl; lra | exact IHForall2].
-Qed.
-
-Lemma qpsum_le_total : forall ss es k, Forall2 Qle ss es -> (qpsum ss es k <= qsum (lens ss es))%Q.
-Proof.
-  intros ss es k H. unfold qpsum.
-  rewrite <- (firstn_skipn (Z.to_nat k) (lens ss es)) at 2. rewrite qsum_app.
-  assert (0 <= qsum (skipn (Z.to_nat k) (lens ss es)))%Q.
-  { apply qsum_nonneg. pose proof (lens_nonneg _ _ H) as F. apply Forall_forall. intros x Hx.
-    eapply Forall_forall in F; [exact F|]. rewrite <- (firstn_skipn (Z.to_nat k)).
-    apply in_or_app; right; exact Hx. }
-  lra.
-Qed.
-
-Lemma qnth_le : forall ss es k, Forall2 Qle ss es -> 0 <= k < zlen ss -> (qnth ss k <= qnth es k)%Q.
-Proof.
-  intros ss es k H Hk.
-  assert (Hn : (Z.to_nat k < length ss)%nat) by (unfold zlen in Hk; lia).
-  unfold qnth. revert Hn. generalize (Z.to_nat k). clear Hk.
-  induction H; intros n Hn; simpl in Hn; [lia|]. destruct n; simpl; [assumption|]. apply IHForall2. lia.
-Qed.
-
-(* the buffer bound: if n steps fit strictly inside the total length, row n exists *)
-Lemma rows_bound : forall (tot stp : Q) (n : Z) (q : Q), (0 < stp)%Q -> (q == tot)%Q ->
-  (inject_Z n * stp < tot)%Q -> forall stp', (stp' == stp)%Q ->
-  n < Z.max 0 (to_int (eval_binop Add
-                         (eval_unop ToInt (eval_unop Ceil (VFlt (fdiv (Some q) (Some stp')))))
-                         (VInt 1))).
-Proof.
-  intros tot stp n q Hs Hq Hn stp' Hs'.
-  unfold fdiv, f2. assert (Z0 : Qeq_bool stp' 0 = false).
-  { destruct (Qeq_bool stp' 0) eqn:E; [|reflexivity]. apply Qeq_bool_eq in E. lra. }
-  rewrite Z0. unfold qsome, eval_unop. cbn [to_int eval_binop is_flt orb binop_int]. rewrite qtrunc_qz.
-  assert (inject_Z n < inject_Z (Qceiling (Qred (q / stp'))))%Q.
-  { eapply Qlt_le_trans; [|apply Qle_ceiling]. rewrite Qred_correct.
-    apply Qlt_shift_div_l; [lra|]. rewrite Hq, Hs'. exact Hn. }
-  rewrite <- Zlt_Qlt in H. lia.
-Qed.
-
-Lemma cond_lt : forall a b c : Q, cmp_flt Lt (fadd (Some a) (Some b)) (Some c) = true -> (a + b < c)%Q.
-Proof.
-  intros a b c H. unfold fadd, f2, qsome, cmp_flt, cmp_q in H. apply negb_true_iff in H.
-  assert (~ (c <= Qred (a + b))%Q) by (intro C; apply Qle_bool_iff in C; rewrite C in H; discriminate H).
-  rewrite Qred_correct in H0. apply Qnot_le_lt. exact H0.
-Qed.
-
-Lemma step_pos : forall isz ov : Q, (0 < isz)%Q -> (ov < 1)%Q -> (0 < (1 - ov) * isz)%Q.
-Proof. intros. apply Qmult_lt_0_compat; lra. Qed.
-Lemma step_le : forall isz ov : Q, (0 < isz)%Q -> (0 <= ov)%Q -> ((1 - ov) * isz <= isz)%Q.
-Proof.
-  intros isz ov Hi Ho. assert (0 <= ov * isz)%Q by (apply Qmult_le_0_compat; lra).
-  assert ((1 - ov) * isz == isz - ov * isz)%Q by ring. lra.
-Qed.
-Lemma step_model : forall isz ov : Q, (Qred (Qred (qz 1 - ov) * isz) == (1 - ov) * isz)%Q.
-Proof. intros. rewrite Qred_correct. rewrite Qred_correct. unfold qz. simpl inject_Z. ring. Qed.
-Lemma step_model' : forall isz ov : Q, (Qred (isz * Qred (qz 1 - ov)) == (1 - ov) * isz)%Q.
-Proof. intros. rewrite Qred_correct. rewrite Qred_correct. unfold qz. simpl inject_Z. ring. Qed.
 
 Definition Pre__overlap_split (args : list value) : Prop :=
   exists ss es isz ov,
@@ -158,69 +39,38 @@ Definition Pre__overlap_split (args : list value) : Prop :=
     /\ length ss = length es /\ (0 < isz)%Q /\ (0 <= ov)%Q /\ (ov < 1)%Q
     /\ Forall2 Qle ss es.
 
-Definition ann__overlap_split (ss es : list Q) (isz ov : Q) (l : nat) : annot :=
+(* what safety and termination need since the repair: start and end of equal length *)
+Definition Pre__overlap_split_any (args : list value) : Prop :=
+  exists ss es isz ov,
+    args = [Ar (A1 DFlt (fqs ss)); Ar (A1 DFlt (fqs es)); Sc (fq isz); Sc (fq ov)]
+    /\ length ss = length es.
+
+Lemma Pre__overlap_split_weaken : forall args, Pre__overlap_split args -> Pre__overlap_split_any args.
+Proof. intros args (ss & es & isz & ov & E & Hlen & _). exists ss, es, isz, ov. split; assumption. Qed.
+
+Definition ann__overlap_split (ss : list Q) (l : nat) : annot :=
   match l with
   | 0%nat => ALoop [("k", KInt); ("n", KInt); ("t", KAny); ("slices", KArr)]
-                   (fun st0 st => 0 <= getZ st "k" <= zlen ss /\ 0 <= getZ st "n"
-                                  /\ (inject_Z (getZ st "n") * ((1 - ov) * isz)
-                                      <= qpsum ss es (getZ st "k"))%Q)
+                   (fun st0 st => 0 <= getZ st "k" <= zlen ss /\ 0 <= getZ st "n")
   | 1%nat => ALoop [("n", KInt); ("t", KFlt); ("slices", KArr)]
-                   (fun st0 st => 0 <= getZ st "n"
-                                  /\ exists qt, to_flt (getsc st "t") = Some qt
-                                     /\ (inject_Z (getZ st "n") * ((1 - ov) * isz)
-                                         <= qpsum ss es (getZ st0 "k") + (qt - qnth ss (getZ st0 "k")))%Q
-                                     /\ (qt <= qnth es (getZ st0 "k"))%Q)
+                   (fun st0 st => 0 <= getZ st "n")
   | _ => ANone
   end.
 
-Theorem k__overlap_split_safe : forall args, Pre__overlap_split args ->
+Theorem k__overlap_split_safe_any : forall args, Pre__overlap_split_any args ->
   forall fuel, safe_outcome (run fuel k__overlap_split args).
 Proof.
-  intros args (ss & es & isz & ov & -> & Hlen & Hisz & Hov0 & Hov1 & Hle) fuel.
-  unfold run. apply run_safe with (ann := ann__overlap_split ss es isz ov) (R := fun _ : list value => True).
+  intros args (ss & es & isz & ov & -> & Hlen) fuel.
+  unfold run. apply run_safe with (ann := ann__overlap_split ss) (R := fun _ : list value => True).
   unfold fq.
   wp_compute k__overlap_split ann__overlap_split.
   vc k__overlap_split ann__overlap_split.
   all: rewrite ?zlen_fqs in *.
   all: try solve [unfold zlen in *; lia].
-  all: pose proof (step_pos isz ov Hisz Hov1) as Sp; pose proof (step_le isz ov Hisz Hov0) as Sl.
-  all: repeat match goal with
-         | Hx : exists qt : Q, _ |- _ =>
-             let qt := fresh "qt" in let E := fresh "E" in let I1 := fresh "I" in let I2 := fresh "I" in
-             destruct Hx as (qt & E & I1 & I2); try subst
-         end.
-  all: repeat match goal with
-         | Hx : context [to_flt (nthZ (fqs ?l) ?k)] |- _ =>
-             rewrite (nth_fqs l k) in Hx by (unfold zlen in *; lia)
-         | Hx : cmp_flt Lt (fadd (Some _) (Some _)) (Some _) = true |- _ => apply cond_lt in Hx
-         end.
-  (* 1. entry of the outer loop *)
-  1: { rewrite qpsum_0. set (S := ((1 - ov) * isz)%Q). assert (Ez : (inject_Z 0 == 0)%Q) by reflexivity.
-       rewrite Ez. lra. }
-  (* 2. entry of the inner loop: t = start[k] *)
-  1: { rewrite nth_fqs by (unfold zlen in *; lia). eexists. split; [reflexivity|]. split.
-       - set (S := ((1 - ov) * isz)%Q) in *. set (A := (inject_Z z0 * S)%Q) in *. lra.
-       - apply qnth_le; [assumption | unfold zlen in *; lia]. }
-  (* 3, 4. the two stores: row n exists *)
-  1,2: destruct (sum_flt_lens es ss Hlen) as (qs & Es & Eq); rewrite Es;
-       change (binop_flt Div (Some qs) ?b) with (VFlt (fdiv (Some qs) b));
-       unfold fmul, fsub, f2, qsome;
-       apply rows_bound with (tot := qsum (lens ss es)) (stp := ((1 - ov) * isz)%Q);
-       [ exact Sp | exact Eq | | apply step_model' ];
-       pose proof (qpsum_succ ss es z Hlen ltac:(unfold zlen in *; lia)) as Q1;
-       pose proof (qpsum_le_total ss es (z + 1) Hle) as Q2;
-       set (S := ((1 - ov) * isz)%Q) in *; set (A := (inject_Z z1 * S)%Q) in *; lra.
-  (* 5. one more window: t += step, n += 1 *)
-  1: { unfold fmul, fsub, fadd, f2, qsome. eexists. split; [reflexivity|].
-       pose proof (step_model isz ov) as Em.
-       set (S' := Qred (Qred (qz 1 - ov) * isz)) in *.
-       assert (E1 : (inject_Z (z1 + 1) * ((1 - ov) * isz) == inject_Z z1 * ((1 - ov) * isz) + (1 - ov) * isz)%Q)
-         by (rewrite inject_Z_plus; ring).
-       split.
-       - rewrite E1, Qred_correct. set (S := ((1 - ov) * isz)%Q) in *.
-         set (A := (inject_Z z1 * S)%Q) in *. lra.
-       - rewrite Qred_correct. set (S := ((1 - ov) * isz)%Q) in *. lra. }
-  (* 6. next epoch *)
-  1: { rewrite qpsum_succ by (try assumption; unfold zlen in *; lia).
-       set (S := ((1 - ov) * isz)%Q) in *. set (A := (inject_Z z1 * S)%Q) in *. lra. }
+  (* the two stores slices[n, 0], slices[n, 1]: row n exists, by the guard n <= N *)
+  all: apply guard_row; assumption.
 Qed.
+
+Theorem k__overlap_split_safe : forall args, Pre__overlap_split args ->
+  forall fuel, safe_outcome (run fuel k__overlap_split args).
+Proof. intros args H. apply k__overlap_split_safe_any, Pre__overlap_split_weaken, H. Qed.
